@@ -118,4 +118,17 @@ theorem progress (c : Cfg) (s : State) (hi : Inv c s) (hnf : ¬ (s.seen1 = true 
       | cons x rest => exact en .c1Recv (by simp [step, np, h1', hob])
       | nil => exact en .c1Recv (by simp [step, np, h1', hob, ho1])
 
+def pcWeight : Pc → Nat
+  | .recv => 3 | .send1 _ => 7 | .send2 _ => 5 | .close1 => 2 | .close2 => 1 | .done => 0
+
+def measure (s : State) : Nat :=
+  9 * s.pend.length + 8 * s.inp.buf.length + pcWeight s.pc + s.o1.buf.length + s.o2.buf.length +
+  (if s.inp.closed then 0 else 1) + (if s.seen1 then 0 else 1) + (if s.seen2 then 0 else 1) +
+  (if s.panicked then 0 else 1)
+
+theorem measure_decreases (c : Cfg) (s s' : State) (l : Label)
+    (hs : step c s l = some s') : measure s' < measure s := by
+  cases l <;> simp only [step] at hs <;> (repeat' split at hs) <;> (try cases hs) <;>
+    simp_all [measure, pcWeight] <;> omega
+
 end Goderive.K.Dup
